@@ -263,6 +263,16 @@ validations:
 `)
 }
 
+func init() {
+	// 6: many quantified siblings in one validation (variable-name cliffs), exactly one of them violated
+	var b strings.Builder
+	b.WriteString("profile: c15 many siblings\nprefixes:\n  ex: http://ex.org/\nviolation:\n  - many\nvalidations:\n  many:\n    message: many\n    targetClass: ex.R\n    propertyConstraints:\n")
+	for i := 1; i <= 28; i++ {
+		fmt.Fprintf(&b, "      ex.k%d:\n        nested:\n          propertyConstraints:\n            ex.p4:\n              minCount: 1\n", i)
+	}
+	c15Bases = append(c15Bases, b.String())
+}
+
 const apiExtNS = "http://a.ml/vocabularies/api-extension#"
 const coreNS = "http://a.ml/vocabularies/core#"
 
@@ -275,6 +285,17 @@ func c15Graph() *Graph {
 		n.P(coreNS+"extensionName", []string{"wadus", "other", "wadus", "wadus"}[kind])
 		if kind >= 2 {
 			n.P(EX+"c", Ref(fmt.Sprintf("%sc%d", EX, kind-2)))
+		}
+	}
+	// for base profile 6: roots r<j> whose j-th link leads to a child without p4 (c0), all others to c1 (has p4)
+	for _, j := range []int{11, 12, 24, 25, 26, 27} {
+		r := g.Add(fmt.Sprintf("%sr%d", EX, j), EX+"R")
+		for k := 1; k <= 28; k++ {
+			if k == j {
+				r.P(fmt.Sprintf("%sk%d", EX, k), Ref(EX+"c0"))
+			} else {
+				r.P(fmt.Sprintf("%sk%d", EX, k), Ref(EX+"c1"))
+			}
 		}
 	}
 	names := []string{"zero", "one", "Two", "three", "x", "five5", "six", "seven"}
